@@ -254,7 +254,7 @@ impl Prop for C13 {
     type Case = CompCase;
     const ID: &'static str = "C13";
     const PART: &'static str = "composition";
-    const RULE: &'static str = "proptest choice sequences -> compound layouts of 1-4 components from {R^1..3, SO2, SO3} in any order (also SE2/SE3 through their constructors), weights from {0, 1e-6, 1, 1e3, random}, component bounds (bounded, unbounded, non-convex), resolution fractions, a state pair (canonical or not), t, sampler seed. Oracle: every operation of the compound/SE2/SE3 space is recomputed component by component with the real component spaces and combined by the documented law: distance and resolution to 1e-14 relative, interpolate / enforce_bounds / sample_uniform bit for bit (same generator, same order), satisfies_bounds as conjunction. Non-trivial = >= 2 components of different kinds with not-all-equal weights.";
+    const RULE: &'static str = "proptest choice sequences -> compound layouts of 1-4 components from {R^1..3, SO2, SO3} in any order (also SE2/SE3 through their constructors), weights from {0, 1e-6, 1, 1e3, random; rarely 1e-170, 1e160, 1e200, whose squares leave the double range}, component bounds (bounded, unbounded, non-convex), resolution fractions, a state pair (canonical or not), t, sampler seed. Oracle: every operation of the compound/SE2/SE3 space is recomputed component by component with the real component spaces and combined by the documented law: distance and resolution to 1e-14 relative, interpolate / enforce_bounds / sample_uniform bit for bit (same generator, same order), satisfies_bounds as conjunction. Non-trivial = >= 2 components of different kinds with not-all-equal weights.";
     fn random_cases(tier: Tier) -> usize {
         tier.pick(2_000_000, 8_000_000)
     }
@@ -266,7 +266,7 @@ impl Prop for C13 {
                 continue;
             }
             if ch.prob(0.3) {
-                *w = ch.pick(&[0.0, 1e-6, 1.0, 1e3]);
+                *w = ch.pick(&[0.0, 1e-6, 1.0, 1e3, 0.0, 1e-6, 1.0, 1e3, 1e160, 1e200, 1e-170]);
             }
         }
         let a = gen_any_state(ch, &space);
